@@ -43,4 +43,3 @@ package standard
 //@   top-ensures err == nil ==> idleSeen || ctxErr
 //@   loop 0:
 //@     invariant lnDone && !ctxErr
-
